@@ -410,6 +410,10 @@ def _from_samples(ctx, cfg):
         se = se.p if isinstance(se, st.SymFloat) else alg.to_P(se)
         ctx.eq("statistics_from_samples/std_error^2 * n == variance[n=%d]" % n, se * se * n, var, z3_confirm=False)
         ctx.holds("statistics_from_samples/returns python floats[n=%d]" % n, isinstance(r["mean"], float) and isinstance(r["variance"], float))
+    # evaluating (composite) observables never modifies the chain states they are given: several observables on the same
+    # chains each see what they would see alone
+    from lemmas import C16
+    C16.frames(ctx, "chains/")
 
 
 def replay(o):
